@@ -839,6 +839,43 @@ theorem wire_suffix_walk_eq_decoded : ∀ (labels : List Bytes) (fuel : Nat),
 example : walkWireSuffixes 8 (encName [[119, 119, 119], [101, 120]]) =
     [[3, 119, 119, 119, 2, 101, 120, 0], [2, 101, 120, 0], [0]] := by decide
 
+/-- **The two admission layers nest.** Every packet the strict path admits
+(`ParseWire`) carries a header the engines' gate (`acceptHeader`, the same
+function on the ring path, the inline reader pass and the TCP engine) accepts:
+no packet is served from bytes that an engine would have ignored or rejected
+with NOTIMP / FORMERR. -/
+theorem strict_admission_within_engine_gate (raw : Bytes) (f : Facts) (h : parseWire raw = some f) :
+    ∃ i1 i0 f1 f0 q1 q0 a1 a0 n1 n0 r1 r0 body,
+      raw = i1 :: i0 :: f1 :: f0 :: q1 :: q0 :: a1 :: a0 :: n1 :: n0 :: r1 :: r0 :: body ∧
+      acceptVerdict (u16 f1 f0) (u16 q1 q0) (u16 a1 a0) (u16 n1 n0) (u16 r1 r0) = 0 := by
+  unfold parseWire at h
+  split at h
+  · rename_i i1 i0 f1 f0 q1 q0 a1 a0 n1 n0 r1 r0 body
+    refine ⟨i1, i0, f1, f0, q1, q0, a1, a0, n1, n0, r1, r0, body, rfl, ?_⟩
+    simp only at h
+    by_cases hq : (u16 f1 f0 >>> 11) &&& 0xF ≠ 0 ∨ u16 f1 f0 &&& 0x8000 ≠ 0
+    · simp [hq] at h
+    · by_cases hcnt : u16 q1 q0 ≠ 1 ∨ u16 a1 a0 ≠ 0 ∨ u16 n1 n0 ≠ 0 ∨ u16 r1 r0 > 1
+      · rw [if_neg hq, if_pos hcnt] at h; cases h
+      · have h1 : ¬ (u16 f1 f0 &&& 0x8000 ≠ 0) := fun hh => hq (Or.inr hh)
+        have h2 : ¬ ((u16 f1 f0 >>> 11) &&& 0xF ≠ 0) := fun hh => hq (Or.inl hh)
+        unfold acceptVerdict
+        rw [if_neg h1, if_neg (fun hh => h2 hh.1), if_neg (by omega)]
+  · cases h
+
+/-- The model's header gate is the compiled one: the real `acceptHeader` over
+QR x every opcode, and over each count around its bound. -/
+theorem engine_gate_matches_tree :
+    SdnsVerif.Gen.C05.acceptHeader_by_qr_opcode =
+      ((List.range 2).flatMap fun qr => (List.range 16).map fun op => acceptVerdict (qr * 2 ^ 15 + op * 2 ^ 11) 1 0 0 0) ∧
+    SdnsVerif.Gen.C05.acceptHeader_by_counts =
+      [(0, 0, 0, 0), (1, 0, 0, 0), (2, 0, 0, 0), (1, 1, 0, 0), (1, 2, 0, 0), (1, 0, 1, 0), (1, 0, 2, 0), (1, 0, 0, 2), (1, 0, 0, 3),
+       (1, 1, 1, 2), (256, 0, 0, 0)].map (fun c => acceptVerdict 0x0100 c.1 c.2.1 c.2.2.1 c.2.2.2) := by
+  decide
+
+-- non-vacuity: an UPDATE (opcode 5) is NOTIMP on every engine path, a plain query is accepted
+example : acceptVerdict 0x2800 1 0 0 0 = 2 ∧ rejectRcode 2 = 4 ∧ acceptVerdict 0x0100 1 0 0 1 = 0 := by decide
+
 /-! ## 6. Facts regenerated from the tree (one-directional side conditions) -/
 
 /-- The real `ApplyReply` / `ClearAD`, evaluated on every single-bit word (and
